@@ -96,6 +96,11 @@ def run(tier, seed):
         kc.append(tup(lst([]), lst([nat(nsamp), nat(len(out2))]), lst([lst([lst([nat(x) for x in k]) for k in keys1]), lst([lst([nat(x) for x in k]) for k in keys2])])))
         kmeta.append(dict(kind="TrajGenConst", nsamples=[nsamp, len(out2)], keys=[keys1, keys2]))
         res.count("TrajGenConst")
+    for s0 in (0, np.int64(0)):
+        a_ = boltzmann_velocities(np.array([100.0, 2000.0]), 300.0, scale=False, seed=s0); b_ = boltzmann_velocities(np.array([100.0, 2000.0]), 300.0, scale=False, seed=s0)
+        res.count("seed-zero")
+        if not np.array_equal(a_, b_):
+            bad.append(dict(failed="the Boltzmann generator is reproducible from its seed (seed %r of type %s gives different draws on repetition)" % (s0, type(s0).__name__), case=dict(seed=int(s0))))
     # supporting evidence only: moments of the unscaled Boltzmann momenta
     mass = np.array([100.0, 2000.0, 5e4]); T = 300.0; kt = boltzmann * T
     P = np.array([boltzmann_velocities(mass, T, scale=False, seed=1000 + i) * mass for i in range(4000)])
